@@ -367,6 +367,32 @@ func runC16(e *Env) {
 	}
 	gi := 0
 	stopped := concurrent > 1 // the sequential expectations do not apply to concurrent writers
+	if !stopped && sink.Swallow {
+		// exceptions are consumed and the channel goes on: a frame that may be delivered or rejected (kind 2) can carry
+		// the same object as a later frame, so deliveries are not attributed greedily. The run is fine if ANY attribution
+		// is consistent: must-deliver frames delivered in order, must-raise frames not delivered, one exception per
+		// frame that was not delivered. Only if none exists the greedy walk below names the first difference.
+		gots := make([]string, len(sink.Got))
+		for k, g := range sink.Got {
+			if isJSON {
+				gots[k] = canon(g)
+			} else if s, ok := g.(string); ok {
+				gots[k] = s
+			} else {
+				gots[k] = fmt.Sprintf("<%T>", g)
+			}
+		}
+		kinds := make([]int, len(exps))
+		canons := make([]string, len(exps))
+		for k, x := range exps {
+			kinds[k], canons[k] = x.Kind, x.Canon
+		}
+		if c16Aligns(kinds, canons, gots, len(sink.Ex), 0, 0, 0) {
+			stopped = true
+			gi = len(sink.Got)
+			e.Count("consumed_exception_runs_with_consistent_attribution", 1)
+		}
+	}
 	for i, x := range exps {
 		if stopped {
 			break
@@ -443,6 +469,23 @@ func runC16(e *Env) {
 }
 
 var _ = simnet.FragWhole
+
+// c16Aligns: is there an attribution of the deliveries to the frames that satisfies every frame's expectation?
+//
+//go:norace
+func c16Aligns(kinds []int, canons, gots []string, nEx, i, j, ex int) bool {
+	if i == len(kinds) {
+		return j == len(gots) && ex == nEx
+	}
+	delivered := j < len(gots) && gots[j] == canons[i]
+	switch kinds[i] {
+	case 0:
+		return delivered && c16Aligns(kinds, canons, gots, nEx, i+1, j+1, ex)
+	case 1:
+		return c16Aligns(kinds, canons, gots, nEx, i+1, j, ex+1)
+	}
+	return (delivered && c16Aligns(kinds, canons, gots, nEx, i+1, j+1, ex)) || c16Aligns(kinds, canons, gots, nEx, i+1, j, ex+1)
+}
 
 //go:norace
 func clipS(s string, n int) string {
